@@ -83,6 +83,7 @@ class C14(Check):
         step = [-1]
         labels = set()
         flags = {"nt": False, "touched": set()}
+        ro_sessions = {}         # id(token) -> handles of its read-only sessions
 
         def V(msg):
             return Violation("[%s] step %d %s: %s" % (backend, step[0], prog["ops"][step[0]] if 0 <= step[0] < len(prog["ops"]) else "", msg), prog)
@@ -264,6 +265,9 @@ class C14(Check):
                 r = w[0].C_OpenSession(slot=target.slot, flags=RW if op[2] else K.CKF_SERIAL_SESSION)
                 if r["rv"] == 0:
                     target.sessions.append(r["h"])
+                    ro_sessions.setdefault(id(target), set())
+                    if not op[2]:
+                        ro_sessions[id(target)].add(r["h"])
             elif kind == "close":
                 if target.sessions:
                     s = target.sessions.pop(op[2] % len(target.sessions))
@@ -284,6 +288,16 @@ class C14(Check):
                     who = op[2]
                     pin = target.user if who == "USER" else target.so
                     rv = w[0].C_Login(s=target.sessions[0], user=K.CKU_USER if who == "USER" else K.CKU_SO, pin=hx(pin or b"unset-pin-x"))["rv"]
+                    # isolation: the answers that speak about THIS token's sessions / login state must be true of this token (whatever another
+                    # token's sessions and logins are)
+                    own_ro = [h_ for h_ in target.sessions if h_ in ro_sessions.get(id(target), ())]
+                    if rv == K.CKR_SESSION_READ_ONLY_EXISTS and not own_ro:
+                        raise V("C_Login(%s) on token %s answers CKR_SESSION_READ_ONLY_EXISTS although none of its %d sessions is read-only (read-only sessions "
+                                "of other tokens: %s)" % (who, target.label, len(target.sessions),
+                                                          {x.label: len([h_ for h_ in x.sessions if h_ in ro_sessions.get(id(x), ())]) for x in toks if x is not target}))
+                    if rv in (K.CKR_USER_ALREADY_LOGGED_IN, K.CKR_USER_ANOTHER_ALREADY_LOGGED_IN) and target.login is None:
+                        raise V("C_Login(%s) on token %s answers %s although nobody is logged in on it (other tokens: %s)" % (
+                            who, target.label, K.rvname(rv), {x.label: x.login for x in toks if x is not target}))
                     if rv == 0:
                         target.login = "user" if who == "USER" else "so"
                         flags["nt"] = flags["nt"] or sum(1 for x in toks if x.objects) >= 2
